@@ -179,6 +179,14 @@ class RefGraph:
                     return False
         return True
 
+    def buildable(self):
+        """can be rebuilt through the public mutators: every descriptor sits
+        on an existing centre (remove_bond keeps the bond's descriptor)"""
+        return (all(b in self.bonds for b in self.bstereo)
+                and all(b in self.bonds for b in self.bchange)
+                and all(a in self.atoms for a in self.astereo)
+                and all(a in self.atoms for a in self.achange))
+
     def faithful(self):
         """every atom-centred descriptor names exactly the bonded neighbours
         of its centre - on every side (reactant, product, transition
